@@ -101,7 +101,7 @@ def main():
             summary = " ".join(txt.split("\n\n")[1].split())[:500] if "\n\n" in txt else txt[:300]
         meta = {"property": pid, "summary": summary, "files": sorted(set(re.findall(r"^diff --git a/(\S+) b/", open(patch).read(), re.M))),
                 "tests_pass": True, "demo_pristine": "exit 0", "demo_changed": "exit %s: %s" % (rc1, " | ".join(o1.strip().splitlines()[-4:])[:700]),
-                "round": 10, "caught_by": [], "expect": [pid],
+                "round": int(os.environ.get("ROUND", "12")), "caught_by": [], "expect": [pid],
                 "confirmed": {"how": "patch applied in a scratch worktree; `cargo test --offline --no-fail-fast` in every touched crate fails exactly the tests that fail on the pristine tree; the demonstration exits non-zero on the changed tree and 0 on the pristine tree",
                               "touched_crates": crates, "failing_tests_pristine": {c: base[c][1] for c in crates}, "failing_tests_changed": {c: after[c][1] for c in crates},
                               "demo_changed_rc": rc1, "demo_pristine_rc": rc0}}
@@ -141,7 +141,7 @@ def main():
         if txt:
             open(os.path.join(dst, "NOTES.md"), "w").write(txt)
         meta = {"property": pid, "benign": True, "region_of": pid, "summary": " ".join(txt.split())[:500], "files": sorted(set(re.findall(r"^diff --git a/(\S+) b/", open(patch).read(), re.M))),
-                "round": 10, "expect": [], "caught_by": [],
+                "round": int(os.environ.get("ROUND", "12")), "expect": [], "caught_by": [],
                 "confirmed": {"how": "patch applied in a scratch worktree; the touched crates' tests fail exactly the pristine set; every demonstration of the same round's breaking changes still exits 0 with the refactoring applied",
                               "touched_crates": crates, "demos": demos}}
         json.dump(meta, open(os.path.join(dst, "meta.json"), "w"), indent=1)
